@@ -35,7 +35,8 @@ PROBES = [
     "probe.chunk_in_record_header", "probe.chunk_in_global_header", "probe.modified_then_written", "probe.written_twice",
     "probe.no_packet_selected", "probe.end_filter", "probe.skip_pcap", "probe.nondefault_header", "probe.local_used",
     "probe.command_mode", "probe.packet_gt_8192", "probe.end_only_program", "probe.nested_field_modified_then_written",
-    "probe.late_nonfilter_statement", "probe.global_function_called", "probe.long_stream",
+    "probe.late_nonfilter_statement", "probe.global_function_called", "probe.long_stream", "probe.empty_action_block",
+    "probe.flag_after_script_argument",
 ]
 
 M = 1000003
@@ -411,9 +412,10 @@ def _gen_program2(rng, skip, nglob, prog):
                 pat = gen_bexpr(rng, 2, nglob, [])
             prog["filters"].append({"pat": pat, "act": None})
         elif k == "both":
-            prog["filters"].append({"pat": gen_bexpr(rng, 2, nglob, []), "act": gen_stmts(rng, nglob, [], i, skip)})
+            # (sometimes an empty action block: it is still an action, so the filter must never write the packet)
+            prog["filters"].append({"pat": gen_bexpr(rng, 2, nglob, []), "act": [] if rng.chance(10) else gen_stmts(rng, nglob, [], i, skip)})
         else:
-            prog["filters"].append({"pat": None, "act": gen_stmts(rng, nglob, [], i, skip)})
+            prog["filters"].append({"pat": None, "act": [] if rng.chance(6) else gen_stmts(rng, nglob, [], i, skip)})
     if end_only or rng.chance(60):
         st = [["eprint", "END", [["v", "NP"]] + [["g", i] for i in range(nglob)]]]
         if rng.chance(30):
@@ -490,7 +492,8 @@ def generate(rng, tier, idx):
             else:
                 cut = rng.range(24, total)
         cut = max(24, min(cut, total))
-    return {"hdr": hdr, "recs": recs, "cut": cut, "skip": skip, "prog": gen_program(rng, skip, eth), "eth": eth,
+    flagpos = rng.weighted([(50, "before"), (20, "after_script"), (15, "after_arg"), (15, "long")])
+    return {"hdr": hdr, "recs": recs, "cut": cut, "skip": skip, "prog": gen_program(rng, skip, eth), "eth": eth, "flagpos": flagpos,
             "cmd": rng.chance(25), "chunks": content.chunk_plan(rng), "rseed": rng.u64() >> 8}
 
 
@@ -511,13 +514,17 @@ def render(model):
         data = data[: model["cut"]]
     src = program_source(model["prog"])
     plan = {"root": "d/", "paths": [], "stdin": "p", "chunks": model["chunks"], "rseed": model["rseed"], "faults": []}
-    argv = []
-    if model["skip"]:
-        argv.append("-s")
+    # the flag may stand before the program, after it, after a script argument, or be spelled out
+    pos = model.get("flagpos", "before") if model["skip"] else None
+    flag = "--skip-pcap" if pos == "long" else "-s"
     if model["cmd"]:
-        argv += ["-c", src]
+        argv = ([flag] if pos in ("before", "long") else []) + ["-c", src] + ([flag] if pos in ("after_script", "after_arg") else [])
         return {"argv": argv, "script": None, "files": {}, "dirs": ["d"], "stdin": data, "plan": plan}
-    argv.append("s.p2")
+    argv = ([flag] if pos in ("before", "long") else []) + ["s.p2"]
+    if pos == "after_script":
+        argv += [flag]
+    elif pos == "after_arg":
+        argv += ["somearg", flag]
     return {"argv": argv, "script": src, "files": {}, "dirs": ["d"], "stdin": data, "plan": plan}
 
 
@@ -631,6 +638,10 @@ def check(model, results):
         inc("probe.packet_gt_8192")
     if len(recs) >= 500:
         inc("probe.long_stream")
+    if any(f["act"] == [] for f in model["prog"]["filters"]):
+        inc("probe.empty_action_block")
+    if model["skip"] and model.get("flagpos") == "after_arg" and not model["cmd"]:
+        inc("probe.flag_after_script_argument")
     inc("ops.packets", len(recs))
     shape = "|".join(("b" if f["act"] is None else ("pa" if f["pat"] is not None else "a")) for f in model["prog"]["filters"]) + ("|e" if model["prog"]["end"] is not None else "")
     cutc = "nocut" if model["cut"] is None else ("cutb" if model["cut"] in offs else "cutm")
